@@ -382,6 +382,11 @@ def merge_render_with_diff3(b, l, r, strategy=None):
     elif strategy is not None:
         warning("Using diff3 but ignoring strategy %s", strategy)
     merged, status = external_merge_render(cmd.split(), b, l, r)
+    if status not in (0, 1):
+        # diff3 exits with 0 (clean) or 1 (conflicts); anything else means
+        # trouble, e.g. its subsidiary program diff is missing, and the
+        # output is not a merge of the inputs
+        return builtin_merge_render(b, l, r, strategy)
     return merged, status
 
 
